@@ -228,3 +228,18 @@ func TestC04RealSigner(t *testing.T) {
 			return c
 		}, Exec: execReal})
 }
+
+// TestC04BigReplies: the long-line class of TestC04RealSigner as a fixed grid (the random check reaches the
+// largest size only once in sixty cases).
+func TestC04BigReplies(t *testing.T) {
+	var cases []RealCase
+	for _, kb := range []int{50, 200, 1200, 2500} { // a reply stays below the transport's 4 MiB message limit
+		for at := 1; at <= 3; at++ {
+			cases = append(cases, RealCase{Ctx: "live", Endpoints: []string{"signreq"}, NCerts: 3, BigAt: at, BigKB: kb, Retries: 1, Stale: at == 2, Again: at == 3})
+		}
+	}
+	cases = append(cases, RealCase{Ctx: "live", Endpoints: []string{"rpcerr", "signreq"}, NCerts: 1, BigAt: 1, BigKB: 1200, Retries: 1})
+	vh.Enumerate(t, vh.Spec[RealCase]{Property: "C04", Name: "TestC04BigReplies", Exhaustive: true, Journal: true,
+		Rule: "gensign.Run with the real regular handler and the real crypki.Signer against one signing endpoint whose reply holds 3 certificates, the first / second / third of them a text line padded with 50 KiB, 200 KiB, 1.2 MiB or 2.5 MiB (12 points; a reply stays below gRPC's 4 MiB message limit), plus a 1.2 MiB single-certificate reply behind a failing endpoint; live context. Oracle: TestC04RealSigner's (success only if every certificate of the reply is in the agent afterwards; with a live context and a signing endpoint the run succeeds)",
+		Exec: execReal}, cases)
+}
